@@ -565,7 +565,28 @@ func (c *FnCtx) dryRun(st *State, f func(s *State)) *writeLog {
 	return log
 }
 
-func (c *FnCtx) havocWrites(st *State, log *writeLog) {
+type frameItem struct {
+	name  string
+	entry *Term
+}
+
+// loopFrame states, for the arrays havocked as a whole, that locations allocated before the loop are unchanged.
+func (c *FnCtx) loopFrame(st *State, items []frameItem, entryAlloc *Term) []*Term {
+	var out []*Term
+	for _, it := range items {
+		cur := st.heap[it.name]
+		if cur == nil || cur.String() == it.entry.String() {
+			continue
+		}
+		c.quantN++
+		r := leaf(fmt.Sprintf("lf!%d", c.quantN), SInt)
+		out = append(out, mkForall([]Bound{{r.Op, SInt}}, mkImplies(mkAnd(mkLe(intLit(0), r), mkLe(r, entryAlloc)), mkEq(mkSelect(cur, r), mkSelect(it.entry, r))), []*Term{mkSelect(cur, r)}))
+	}
+	return out
+}
+
+func (c *FnCtx) havocWrites(st *State, log *writeLog) []frameItem {
+	var wholesale []frameItem
 	// deterministic order
 	var vs []*types.Var
 	for v := range log.vars {
@@ -615,7 +636,9 @@ func (c *FnCtx) havocWrites(st *State, log *writeLog) {
 			}
 		}
 		if !targeted {
+			entry := c.heapArr(st, h, log.heaps[h])
 			c.heapHavoc(st, h, log.heaps[h])
+			wholesale = append(wholesale, frameItem{h, entry})
 			continue
 		}
 		// only fixed locations are written by the loop: havoc exactly those
@@ -644,6 +667,7 @@ func (c *FnCtx) havocWrites(st *State, log *writeLog) {
 	na := c.smt.freshConst("alloc", SInt)
 	st.pc = append(st.pc, mkLe(st.alloc, na))
 	st.alloc = na
+	return wholesale
 }
 
 type loopVars struct {
@@ -698,7 +722,12 @@ func (c *FnCtx) execFor(st *State, x *ast.ForStmt) []Out {
 			}
 		}
 	})
-	c.havocWrites(st, log)
+	entryAlloc := c.pre.alloc
+	frames := c.havocWrites(st, log)
+	useFrame := ls != nil && ls.Frame
+	if useFrame {
+		st.pc = append(st.pc, c.loopFrame(st, frames, entryAlloc)...)
+	}
 	c.assumeInvs(st, ls, x, env)
 	var outs []Out
 	cond := tTrue
@@ -729,6 +758,11 @@ func (c *FnCtx) execFor(st *State, x *ast.ForStmt) []Out {
 				c.execStmt(s, x.Post)
 			}
 			c.checkInvs(s, ls, "inv-step", x, ord, env)
+			if useFrame {
+				for k, g := range c.loopFrame(s, frames, entryAlloc) {
+					c.oblige(s, "inv-step", x, fmt.Sprintf("loop%d.frame%d", ord, k+1), "loop frame: locations allocated before the loop are unchanged", g)
+				}
+			}
 			if dec0 != nil {
 				d1 := c.specEvalAt(s, ls.Dec.Expr, env, c.pre, x)
 				c.oblige(s, "dec", x, fmt.Sprintf("loop%d.decr", ord), "measure decreases: "+ls.Dec.Text, mkLt(d1, dec0))
@@ -853,14 +887,34 @@ func (c *FnCtx) execRange(st *State, x *ast.RangeStmt) []Out {
 			set(x.Value, elemVal(s, i), valT)
 		}
 	}
+	if c.loopGhost == nil {
+		c.loopGhost = map[string]*Term{}
+	}
+	if seq != nil {
+		c.loopGhost[fmt.Sprintf("$seq%d", ord)] = seq.withGo(xt)
+	}
 	log := c.dryRun(st, func(s *State) {
-		bind(s, c.smt.freshConst("dry_i", SInt))
+		di := c.smt.freshConst("dry_i", SInt)
+		c.loopGhost[fmt.Sprintf("$i%d", ord)] = di
+		bind(s, di)
 		c.execBlock(s, x.Body.List)
 	})
-	c.havocWrites(st, log)
+	entryAlloc := c.pre.alloc
+	frames := c.havocWrites(st, log)
+	useFrame := ls != nil && ls.Frame
+	if useFrame {
+		st.pc = append(st.pc, c.loopFrame(st, frames, entryAlloc)...)
+	}
 	iv := c.smt.freshConst("i", SInt)
 	st.pc = append(st.pc, mkLe(intLit(0), iv), mkLe(iv, n))
 	env["$i"] = iv
+	if c.loopGhost == nil {
+		c.loopGhost = map[string]*Term{}
+	}
+	c.loopGhost[fmt.Sprintf("$i%d", ord)] = iv
+	if seq != nil {
+		c.loopGhost[fmt.Sprintf("$seq%d", ord)] = seq.withGo(xt)
+	}
 	c.assumeInvs(st, ls, x, env)
 	var outs []Out
 	e := st.clone()
@@ -878,6 +932,11 @@ func (c *FnCtx) execRange(st *State, x *ast.RangeStmt) []Out {
 			}
 			env2["$i"] = mkAdd(iv, intLit(1))
 			c.checkInvs(o.st, ls, "inv-step", x, ord, env2)
+			if useFrame {
+				for k, g := range c.loopFrame(o.st, frames, entryAlloc) {
+					c.oblige(o.st, "inv-step", x, fmt.Sprintf("loop%d.frame%d", ord, k+1), "loop frame: locations allocated before the loop are unchanged", g)
+				}
+			}
 		case FBreak:
 			outs = append(outs, Out{st: o.st})
 		default:
